@@ -208,7 +208,7 @@ var wideCmds = []string{
 	"cd D1", "cd D2", "cd ..", "cd -", "cd", "pushd D1", "pushd D2; pushd", "popd", "pushd D1; popd", "PWD=/x", "OLDPWD=/y", "HOME=D2; cd",
 	"exit 3", "exit", "return 2", "break", "set -e; false; a=1", "trap 'a=T' EXIT", "a=1; exit 0", "wait", "true & wait",
 	"exec 2>/dev/null", "exec", "test -n x && a=t", "[[ x == x ]] && a=t", "case x in x) a=c;; esac", "if true; then a=i; fi",
-	"while a=w; do break; done", "until a=u; do :; done", "{ a=g; }", "( a=ss )", ": $(a=cs)", "a=$(echo v)", "b=($(echo 1 2))", "a=`echo v`",
+	"while a=w; do break; done", "until a=u || true; do :; done", "{ a=g; }", "( a=ss )", ": $(a=cs)", "a=$(echo v)", "b=($(echo 1 2))", "a=`echo v`",
 	"a=o | true", "true | a=o", "a=o & wait", "time a=1", "! a=1", "a=1 && b=2 || s=3",
 	"local a=1", "typeset a=1", "typeset -a b=(1)", "nameref r2=a", "readonly", "export", "declare -p a", "declare -f", "declare", "set", "unset IFS", "unset PWD",
 	"source /dev/null", ". /nonexistent", "type f", "dirs", "dirs -c", "pushd -n D1", "popd -n", "shopt -s expand_aliases; alias q=':'; q",
